@@ -19,18 +19,27 @@ Fixpoint list_eqb {T} (eqb : T -> T -> bool) (a b : list T) : bool :=
 Definition opt_eqb {T} (eqb : T -> T -> bool) (a b : option T) : bool :=
   match a, b with Some x, Some y => eqb x y | None, None => true | _, _ => false end.
 
-(* observation after one add: the value returned by n_step_memory.add, len of both buffers and
-   (when recorded) the decoded rows of both storages *)
-Record obs1 := O { o_ret : option (list cell); o_nlen : nat; o_mlen : nat;
-                   o_nrows : option (list (option cell)); o_mrows : option (list (option cell)) }.
+(* observation after one add: the value returned by n_step_memory.add (when observed), len of both
+   buffers, (when recorded) the decoded rows of both storages, and (when the learner sampled) the
+   indices drawn from the 1-step buffer with the rows both samplers returned for them *)
+Record obs1 := O { o_ret : option (option (list cell)); o_nlen : nat; o_mlen : nat;
+                   o_nrows : option (list (option cell)); o_mrows : option (list (option cell));
+                   o_smp : option (list nat * list (option cell) * list (option cell)) }.
 
 Definition rows_ok (tol : Q) (o : option (list (option cell))) (st : list (option cell)) : bool :=
   match o with None => true | Some rows => list_eqb (opt_eqb (cell_eqb tol)) rows st end.
 
 Definition check_one (tol : Q) (s : pstate) (o : obs1) : bool :=
-  opt_eqb (list_eqb (cell_eqb tol)) (o_ret o) (ret s) &&
+  match o_ret o with None => true | Some r => opt_eqb (list_eqb (cell_eqb tol)) r (ret s) end &&
   Nat.eqb (o_nlen o) (size (nbuf s)) && Nat.eqb (o_mlen o) (size (mem s)) &&
-  rows_ok tol (o_nrows o) (store (nbuf s)) && rows_ok tol (o_mrows o) (store (mem s)).
+  rows_ok tol (o_nrows o) (store (nbuf s)) && rows_ok tol (o_mrows o) (store (mem s)) &&
+  match o_smp o with
+  | None => true
+  | Some (idx, nr, mr) =>
+      forallb (fun i => i <? size (mem s)) idx &&
+      list_eqb (opt_eqb (cell_eqb tol)) nr (gather (store (nbuf s)) idx) &&
+      list_eqb (opt_eqb (cell_eqb tol)) mr (gather (store (mem s)) idx)
+  end.
 
 Fixpoint check_trace (info : list vtr -> vtr) (n : nat) (tol : Q) (s : pstate) (xs : list vtr) (obs : list obs1) : bool :=
   match xs, obs with
